@@ -82,7 +82,7 @@ package handlers
 //@ func (a *Application) getCompatibleEndpoints
 //@   property C03 C09
 //@   requires pr != nil
-//@   modifies *
+//@   modifies gvar decisionCount, gvar lastDecision, gvar lastModelEndpoints, gvar lastModelErr, pr.profile, domain.RequestProfile.RoutingDecision, domain.Endpoint.Status, domain.Endpoint.Name, domain.Endpoint.URLString, domain.Endpoint.Priority, domain.Endpoint.Type, domain.Endpoint.NextCheckTime, domain.Endpoint.LastChecked, domain.Endpoint.ConsecutiveFailures, domain.Endpoint.BackoffMultiplier, domain.Endpoint.LastLatency
 //@   ensures decisionCount == old(decisionCount) || decisionCount == old(decisionCount) + 1
 //@   ensures err == nil ==> allNonNil(res)
 //@   ensures err == nil && decisionCount == old(decisionCount) + 1 && lastDecision != nil ==> pr.profile != nil && pr.profile.RoutingDecision == lastDecision
@@ -178,12 +178,15 @@ package handlers
 //@   at call executePassthroughRequest 1 assert forall j int :: 0 <= j && j < len(endpoints) && native(endpoints[j].Type) ==> member(endpoints[j], passthroughEndpoints)
 //@   at call executePassthroughRequest 1 assert len(passthroughEndpoints) > 0
 //@   ensures !res ==> pxCalls == old(pxCalls)
+//@   ensures !res ==> ghost(w).started == old(ghost(w).started) && ghost(w).status == old(ghost(w).status) && ghost(w).hdr == old(ghost(w).hdr) && ghost(w).hdr["Content-Type"] == old(ghost(w).hdr["Content-Type"])
+//@   ensures !res ==> a.proxyService == old(a.proxyService) && a.logger == old(a.logger) && pr.requestLogger == old(pr.requestLogger) && pr.stats == old(pr.stats) && r.URL == old(r.URL)
 //@   ensures pxCalls == old(pxCalls) + 1 ==> res && pxBody == bytesContent(bodyBytes) && pxPath == ptPath && (forall k int :: 0 <= k && k < len(pxEndpoints) ==> member(pxEndpoints[k], endpoints))
 //@   ensures pxCalls == old(pxCalls) || pxCalls == old(pxCalls) + 1
 
 //@ func newResponseRecorder
 //@   property C14 C05
-//@   ensures res != nil && fresh(res) && res.body != nil && res.headers != nil && res.status == 200
+//@   ensures res != nil && fresh(res) && res.body != nil && res.headers != nil && fresh(res.headers) && res.status == 200
+//@   defines ghost(res).hdr == res.headers
 
 // the buffered translation path: the engine is called once, with the request as prepared by the caller
 //@ func (a *Application) executeTranslatedNonStreamingRequest
@@ -191,9 +194,11 @@ package handlers
 //@   replay handlers_translation_backend_status
 //@   safety
 //@   requires a != nil && a.proxyService != nil && w != nil && r != nil && r.URL != nil && trans != nil && pr != nil && pr.requestLogger != nil && pr.stats != nil
-//@   modifies *
+//@   requires allocated(ghost(w).hdr)
+//@   modifies gvar pxCalls, gvar pxEndpoints, gvar pxPath, gvar pxBody, gvar lastEncoded, ghost started, ghost status, ghost hdr, ghost(w).hdr[all], ghost encW, ghost remaining, ghost backing, ports.RequestStats.RoutingDecision, object pr.stats
 //@   ensures pxCalls == old(pxCalls) + 1 && pxEndpoints == endpoints && pxPath == old(r.URL.Path) && pxBody == old(ghost(r.Body).remaining)
 //@   ensures res == nil ==> ghost(w).started
+//@   ensures res != nil && !ghost(w).started ==> ghost(w).hdr["Content-Type"] == old(ghost(w).hdr["Content-Type"])
 //@   at return 3 assert recorder.status < 400
 //@   at return 2 assert recorder.status >= 400 && ghost(w).started && (!old(ghost(w).started) ==> ghost(w).status == recorder.status)
 
@@ -224,6 +229,7 @@ package handlers
 //@   requires a != nil && w != nil && recorder != nil && trans != nil
 //@   modifies ghost started, ghost status, ghost(w).hdr[all]
 //@   ensures res == nil ==> ghost(w).started && (!old(ghost(w).started) ==> ghost(w).status == 200)
+//@   ensures res != nil && !ghost(w).started ==> ghost(w).hdr["Content-Type"] == old(ghost(w).hdr["Content-Type"])
 
 // ---- C05, streaming translation. The engine runs in a goroutine and writes into the streaming recorder while the
 // handler waits. Sequential abstraction: from startProxyGoroutine on, everything the recorder's own methods can write
@@ -253,7 +259,7 @@ package handlers
 //@ func (a *Application) startProxyGoroutine
 //@   property C05
 //@   trusted
-//@   modifies object streamRecorder, ghost(streamRecorder).started, ghost(streamRecorder).status
+//@   modifies object streamRecorder, ghost(streamRecorder).started, ghost(streamRecorder).status, gvar pxCalls, gvar pxEndpoints, gvar pxPath, gvar pxBody, object pr.stats, ports.RequestStats.RoutingDecision, ghost remaining, ghost backing
 //@   ensures res != nil
 
 //@ func (a *Application) handleStreamingPanic
@@ -296,6 +302,51 @@ package handlers
 //@   replay handlers_translation_stream_noanswer
 //@   safety
 //@   requires a != nil && a.proxyService != nil && w != nil && r != nil && trans != nil && pr != nil && pr.requestLogger != nil && pr.stats != nil
-//@   modifies *
+//@   modifies gvar pxCalls, gvar pxEndpoints, gvar pxPath, gvar pxBody, gvar lastEncoded, ghost started, ghost status, ghost hdr, ghost(w).hdr[all], ghost encW, ghost remaining, ghost backing, ports.RequestStats.RoutingDecision, object pr.stats
 //@   at call transformStreamAndWaitForProxy 1 assume streamRecorder.answered == ghost(streamRecorder).started
 //@   at call transformStreamAndWaitForProxy 1 assert ghost(streamRecorder).started && streamRecorder.status < 400
+
+// the translation path as a whole (buffered mode): whatever the engine did, the client gets an answer, and a proxy
+// failure that left the response untouched is reported as 502 in the translator's error format
+//@ func (a *Application) executeTranslationRequest
+//@   property C05 C14
+//@   safety
+//@   requires a != nil && a.proxyService != nil && w != nil && r != nil && r.URL != nil && trans != nil && pr != nil && pr.requestLogger != nil && pr.stats != nil && transformedReq != nil
+//@   requires !ghost(w).started && len(ghost(w).hdr["Content-Type"]) == 0 && allocated(ghost(w).hdr)
+//@   modifies *
+//@   at call executeTranslatedNonStreamingRequest 1 assert r.URL.Path == stripped(transformedReq.TargetPath, "/olla/") || transformedReq.TargetPath == ""
+//@   ensures !transformedReq.IsStreaming ==> ghost(w).started
+
+// request bookkeeping at the top of every proxy-like handler (no client output, no engine call)
+//@ func (a *Application) initializeProxyRequest
+//@   property C05
+//@   trusted
+//@   ensures res != nil && fresh(res) && res.stats != nil && res.requestLogger != nil
+//@ func (a *Application) setupRequestContext
+//@   property C05
+//@   trusted
+//@   ensures res1 != nil && res1.URL == r.URL && res1.Body == r.Body
+//@ func (a *Application) analyzeRequest
+//@   property C05
+//@   trusted
+//@   modifies pr.profile, pr.model, ghost remaining, ghost backing
+//@ func (a *Application) resolveTranslationFallback
+//@   property C05
+//@   safety
+
+// ---- C05 / C14: the translator route as a whole. Every way of failing before a backend was tried (unreadable or
+// oversized body, no model, no eligible endpoint, request the translator rejects) is answered with the matching
+// non-2xx status in the translator's error format and the engine is never called; otherwise passthrough is tried
+// first and translation is the fallback.
+//@ func (a *Application) translationHandler$1
+//@   property C05 C14
+//@   safety
+//@   requires a != nil && a.proxyService != nil && a.logger != nil && w != nil && r != nil && r.URL != nil && r.Body != nil && trans != nil
+//@   requires !ghost(w).started && len(ghost(w).hdr["Content-Type"]) == 0 && allocated(ghost(w).hdr)
+//@   modifies *
+//@   at return 1 assert ghost(w).started && ghost(w).status == 400 && pxCalls == old(pxCalls)
+//@   at return 2 assert ghost(w).started && ghost(w).status == 413 && pxCalls == old(pxCalls)
+//@   at return 3 assert ghost(w).started && ghost(w).status == 400 && pxCalls == old(pxCalls)
+//@   at return 4 assert ghost(w).started && ghost(w).status == 503 && pxCalls == old(pxCalls)
+//@   at return 5 assert ghost(w).started && ghost(w).status == 404 && pxCalls == old(pxCalls)
+//@   at return 7 assert ghost(w).started && ghost(w).status == 400 && pxCalls == old(pxCalls)
